@@ -105,8 +105,18 @@ class CondNorm:
                 for v in f.nodes[i].get("vars", []):
                     if "init" in v and v.get("isref") and "const" in v.get("type", ""):
                         cands.setdefault(v["decl"], v["init"])
+            loopvars = set()
+            for i in f.all("rangefor"):
+                lv = f.nodes[i].get("loopvar", -1)
+                if lv is not None and lv >= 0:
+                    for v in f.nodes[lv].get("vars", []):
+                        loopvars.add(v["decl"])
+                        loopvars |= set(v.get("bindings", []))
             for d, init in cands.items():
                 if init is None or init < 0:
+                    continue
+                # the element variable of a range-for is 'the current element', and compiler-generated names stay what they are
+                if d in loopvars or d.startswith("__"):
                     continue
                 ok = True
                 for x in f.walk(init):
@@ -125,8 +135,21 @@ class CondNorm:
                         rr = f.root_ref(x)
                         if rr is not None and rr >= 0 and f.nodes[rr]["k"] == "ref" and f.nodes[rr].get("dk") in ("local", "param", "binding"):
                             t = None
-                    if t and (t in written or (t.startswith("F:") and not f.d.get("const"))):
-                        ok = False
+                    if t and t in written:
+                        # written somewhere: still fine when every write precedes the initialiser (the local then names the value
+                        # as it is from there on)
+                        last_ = max(f.walk(init))
+                        if any(t in node_writes(f, j) for j in range(last_ + 1, len(f.nodes)) if f.nodes[j]["k"] != "decl"):
+                            ok = False
+                    elif t and t.startswith("F:") and not f.d.get("const"):
+                        # a field of this object in a non-const member function: no later call of a non-const member on this object
+                        last_ = max(f.walk(init))
+                        for j in range(last_ + 1, len(f.nodes)):
+                            m_ = f.nodes[j]
+                            if m_["k"] == "call" and m_.get("member") and not m_.get("cconst") and not m_.get("cstatic") and \
+                                    ("recv" not in m_ or f.nodes[f.strip(m_["recv"])]["k"] == "this") and "op" not in m_:
+                                ok = False
+                                break
                     if not ok:
                         break
                 top = f.nodes[f.strip(init)]
@@ -425,7 +448,8 @@ class Flow:
                     setvals.append((t, self._literal(node["r"])))
             elif node["k"] == "decl":
                 for v in node.get("vars", []):
-                    if "init" in v and v.get("tw") in ("b", "i32", "u32", "e32", "i64", "u64"):
+                    if "init" in v and (v.get("tw") in ("b", "i32", "u32", "e32", "i64", "u64") or self._literal(v["init"]) is not None and
+                                        f.nodes[f.strip(v["init"])]["k"] == "ref"):
                         setvals.append(("L:" + v["decl"], self._literal(v["init"])))
         elif "dtor" in e and e.get("dusr") in self.ws:
             written = list(self.ws[e["dusr"]])
@@ -717,6 +741,13 @@ class Flow:
                             break
                     elif nn.get("tw") == "b":
                         d[t] = want
+                # switch (local): the case edge is taken only by the paths on which the local holds that constant
+                elif nn["k"] == "ref" and nn["dk"] in ("local", "param") and isinstance(pol, str) and pol.startswith("case:"):
+                    t = "L:" + nn.get("decl", nn["name"])
+                    if t in d and d[t] is not None and str(d[t]) != pol[5:]:
+                        feasible = False
+                        break
+                    d[t] = pol[5:]
                 # var == CONST
                 elif nn["k"] == "bin" and nn["op"] in ("==", "!=") and isinstance(pol, bool):
                     for x, y in ((nn["l"], nn["r"]), (nn["r"], nn["l"])):
